@@ -5,7 +5,7 @@ K_PHANTOM = "list-partial-bucket-phantom-flow"
 
 
 def classify(line):
-    tags = line.get("tags", [])
+    tags = line.get("tags") or []
     # exactly the two recorded classes: (1) the configuration in which EmitFlowCollections' backward walk lands
     # exactly on the head bucket ((numBuckets-1-pushAfter) % bucketsToAggregate == 0; separate 1-in-8 stream of the
     # driver), (2) a List whose end bound is inside a bucket returned an all-zero flow with StartTime 0.
